@@ -216,7 +216,7 @@ BAppendExt(kind, n) ==
     /\ UNCHANGED vec
 
 \* Ether.AppendPayload(b) with a complete, separately built IPv4 packet of n bytes whose slice has
-\* `slack` spare capacity (mechanism: the code slices its own payload by cap(b), layer_ethernet.go:156)
+\* `slack` spare capacity (the code sliced its destination by cap(b) until fix ca70b93; capover marks those cases)
 BEtherAppendExt(n, slack) ==
     /\ phase = "build" /\ Len(st) = 1 /\ Top.sub = "ip4" /\ HeaderOnly(Top) /\ cap >= 60 /\ n >= 28
     /\ IF n + 14 > cap
@@ -226,7 +226,7 @@ BEtherAppendExt(n, slack) ==
             /\ cur' = 1 /\ res' = "ok" /\ phase' = "done" /\ UNCHANGED cap
             /\ Step([a |-> "etherappext", n |-> n, slack |-> slack,
                      exp |-> [res |-> "ok", len |-> Max(60, 14 + n),
-                              mechpanic |-> n + slack > cap - 14]])    \* mechanism only: KF_EtherAppendCap
+                              capover |-> n + slack > cap - 14]])      \* payload slice capacity exceeds the room: still must work
     /\ UNCHANGED vec
 
 \* parent.SetPayload(child) / parent.AppendPayload(child) for a child that was built in place
@@ -301,15 +301,15 @@ BuildNext == "build" \in Parts /\ phase \in {"idle", "build"} /\
 
 IP4U == {"hostip4", "routerip4", "lan4"}
 IP4S == {"zero4", "bcast4"}
-IP4M == {"224.0.0.251", "224.0.0.252", "239.255.255.250"}
+IP4M == {"224.0.0.1", "224.0.0.251", "224.0.0.252", "239.255.255.250"}
 IP6U == {"hostlla", "lla1", "gua1"}
-IP6M == {"ff02::1", "ff02::2", "sol:lla1"}
+IP6M == {"ff02::1", "ff02::2", "sol:lla1", "sol:gua1"}
 Is4(a) == a \in IP4U \cup IP4S \cup IP4M
 Is6(a) == a \in IP6U \cup IP6M
-LinkLocal6(a) == a \in {"hostlla", "lla1", "ff02::1", "ff02::2", "sol:lla1"}
+LinkLocal6(a) == a \in {"hostlla", "lla1", "ff02::1", "ff02::2", "sol:lla1", "sol:gua1"}
 Mc6MAC(a) == CASE a = "ff02::1" -> "33:33:00:00:00:01" [] a = "ff02::2" -> "33:33:00:00:00:02"
-               [] a = "sol:lla1" -> "mc6:sol:lla1" [] OTHER -> "none"
-Mc4MAC(a) == CASE a = "224.0.0.251" -> "01:00:5e:00:00:fb" [] a = "224.0.0.252" -> "01:00:5e:00:00:fc"
+               [] a = "sol:lla1" -> "mc6:sol:lla1" [] a = "sol:gua1" -> "mc6:sol:gua1" [] OTHER -> "none"
+Mc4MAC(a) == CASE a = "224.0.0.1" -> "01:00:5e:00:00:01" [] a = "224.0.0.251" -> "01:00:5e:00:00:fb" [] a = "224.0.0.252" -> "01:00:5e:00:00:fc"
                [] a = "239.255.255.250" -> "01:00:5e:7f:ff:fa" [] OTHER -> "none"
 NDPKinds == {"ns", "na", "rs", "ra"}
 
@@ -319,16 +319,20 @@ A(mac, ip) == [mac |-> mac, ip |-> ip]
 IntentAddr(d) == CASE d = "u:lla1" -> A("mac1", "lla1") [] d = "u:gua1" -> A("mac1", "gua1")
                    [] d = "lib:allnodes" -> A("33:33:00:00:00:01", "ff02::1")
                    [] d = "lib:allrouters" -> A("33:33:00:00:00:02", "ff02::2")
-                   [] d = "lib:solnode" -> A("mc6:sol:lla1", "sol:lla1")
+                   [] d = "lib:solnode" -> A("mc6:sol:lla1", "sol:lla1")          \* packet.IPv6SolicitedNode(lla1)
+                   [] d = "lib:solnode:gua" -> A("mc6:sol:gua1", "sol:gua1")     \* packet.IPv6SolicitedNode(gua1)
+                   [] d = "u:hostlla" -> A("hostmac", "hostlla")
                    [] d = "u:lan4" -> A("mac1", "lan4") [] d = "u:invalid" -> A("mac1", "invalid")
 \* what the library's exported constants really contain (mechanism level)
-MechAddr(d) == IF d = "lib:allrouters" THEN A("33:33:00:00:00:02", "ff02::1")     \* session.go:44
-               ELSE IntentAddr(d)
-IntentMDNS4  == A("01:00:5e:00:00:fb", "224.0.0.251")
-IntentLLMNR4 == A("01:00:5e:00:00:fc", "224.0.0.252")
-IntentSSDP4  == A("01:00:5e:7f:ff:fa", "239.255.255.250")
+MechAddr(d) == IntentAddr(d)     \* session.go:44 was ff02::1 for all-routers until fix c76f60c
+\* The statement of C07 names the IPv6 33:33 mapping only; the link-layer address of an IPv4 group is
+\* not constrained ("any").  The code sends these groups to the Ethernet broadcast address (RFC 1112
+\* 6.4 wants 01:00:5e + low 23 bits): recorded by the reference decoder as a note, not a finding.
+IntentMDNS4  == A("any", "224.0.0.251")
+IntentLLMNR4 == A("any", "224.0.0.252")
+IntentSSDP4  == A("any", "239.255.255.250")
 MechMDNS4    == A("bcast", "224.0.0.251")          \* mdns.go:57
-MechLLMNR4   == A("bcast", "224.0.0.251")          \* mdns.go:73
+MechLLMNR4   == A("bcast", "224.0.0.252")          \* mdns.go:73 (address fixed by 6faaf2a)
 MechSSDP4    == A("bcast", "239.255.255.250")      \* ssdp.go:27
 
 Fr(proto, ethSrc, ethDst, ipSrc, ipDst, hop, sport, dport, kind, f) ==
@@ -339,7 +343,8 @@ Res(n, err, fr, kf) == [n |-> n, err |-> err, fr |-> fr, kf |-> kf]
 KF(field, label) == [field |-> field, label |-> label]
 
 \* fields of f that the statement does not constrain (mechanism detail)
-MechOnlyF == {"data", "router", "solicited", "override", "tha", "curhop", "lifetime", "mtu", "qtype", "qclass", "flags", "an", "startline"}
+MechOnlyF == {"data", "router", "solicited", "override", "tha", "curhop", "lifetime", "mtu", "qtype", "qclass", "flags", "an", "startline",
+              "prefix1.flags", "prefix1.valid", "prefix1.preferred", "rdnss.lifetime"}
 HopDemanded(fr) == IF fr.kind \in NDPKinds /\ LinkLocal6(fr.ipDst) THEN 255 ELSE -1
 Relax(fr) == [fr EXCEPT !.hop = HopDemanded(fr),
                         !.f = [k \in DOMAIN fr.f |-> IF k \in MechOnlyF THEN "any" ELSE fr.f[k]]]
@@ -355,7 +360,6 @@ WellFormed(fr, ex) ==
     /\ MatchN(fr.sport, ex.sport) /\ MatchN(fr.dport, ex.dport)
     /\ \A k \in DOMAIN ex.f : ex.f[k] = "any" \/ (k \in DOMAIN fr.f /\ fr.f[k] = ex.f[k])       \* caller's fields
     /\ (fr.ipDst \in IP6M => fr.ethDst = Mc6MAC(fr.ipDst))                     \* 33:33:<low 32 bits>
-    /\ (fr.ipDst \in IP4M => fr.ethDst = Mc4MAC(fr.ipDst))                     \* intended protocol: RFC 1112 mapping
     /\ MatchN(fr.hop, HopDemanded(fr))                                         \* link-local NDP: hop limit 255
     /\ fr.sound = "ok"                                                         \* checksums verify, lengths consistent
 
@@ -370,7 +374,7 @@ Echo4(src, dst, id, seq, okerr) ==
         exp  |-> IF bad THEN Res(-1, "any", NoFrame, {}) ELSE Res(1, okerr, Relax(fr), {}),
         mech |-> IF bad THEN Res(0, "ErrInvalidIP", NoFrame, {}) ELSE Res(1, okerr, fr, {})]
 
-KFDst(d) == IF d = "lib:allrouters" THEN {KF("ipDst", "KF_AllRoutersIsAllNodes")} ELSE {}
+KFDst(d) == {}      \* no labelled deviation of a library address constant at present
 
 Echo6(src, d, id, seq, okerr) ==
     LET i == IntentAddr(d)  m == MechAddr(d)
@@ -393,27 +397,28 @@ NDP6(src, d, kind, f, mf) ==
 
 NAF(t)  == [type |-> "136", target |-> t.ip, tlla |-> t.mac, router |-> "0", solicited |-> "0", override |-> "1"]
 NSF(ip) == [type |-> "135", target |-> ip]                                   \* the option belongs to C03
-NSMechF(ip) == [type |-> "135", target |-> ip, tlla |-> "hostmac"]          \* layer_icmp.go:383 writes type 2
+NSMechF(ip) == [type |-> "135", target |-> ip, slla |-> "hostmac"]          \* layer_icmp.go:383 (type 1 since fix 8d08f2e)
 
 HostLLAAddr == A("hostmac", "hostlla")
 RS == LET ideal == Fr("icmp6", "hostmac", "33:33:00:00:00:02", "hostlla", "ff02::2", 255, -1, -1, "rs", [type |-> "133", slla |-> "hostmac"])
-          \* RouterSolicitation.marshal has no ICMPv6 header: the 4 reserved bytes become type/code/checksum
-          real  == Fr("icmp6", "hostmac", "33:33:00:00:00:02", "hostlla", "ff02::1", 255, -1, -1, "icmp:0", [type |-> "0"])
-      IN [clean |-> TRUE, exp |-> Res(1, "nil", Relax(ideal), {}),
-          mech |-> Res(1, "nil", real, {KF("ipDst", "KF_AllRoutersIsAllNodes"), KF("kind", "KF_NDPNoICMPHeader"), KF("f.type", "KF_NDPNoICMPHeader")})]
+          \* RouterSolicitation.marshal yields the body only; the send function prepends the ICMPv6 header (fix 5720c60)
+      IN [clean |-> TRUE, exp |-> Res(1, "nil", Relax(ideal), {}), mech |-> Res(1, "nil", ideal, {})]
 
-NStr(n) == CASE n = 0 -> "0" [] n = 1 -> "1" [] n = 2 -> "2" [] OTHER -> "many"
+NStr(n) == CASE n = 0 -> "0" [] n = 1 -> "1" [] n = 2 -> "2" [] n = 3 -> "3" [] OTHER -> "many"
 RA(np, rd, d) ==
     LET i == IntentAddr(d)
         f == [type |-> "134", curhop |-> "64", lifetime |-> "1800", nprefix |-> NStr(np), slla |-> "hostmac", mtu |-> "arg.mtu",
-              rdnss |-> IF rd THEN "arg.rdnss" ELSE "any"]
+              rdnss |-> IF rd THEN "arg.rdnss" ELSE "absent",
+              prefix1 |-> "arg.prefix1", prefix2 |-> IF np >= 2 THEN "arg.prefix2" ELSE "absent",
+              prefix3 |-> IF np >= 3 THEN "arg.prefix3" ELSE "absent"]
+             \* what the function adds on its own (layer_icmp6_ndp.go:235-244): on-link + autonomous, 2 h / 30 min
+             @@ ("prefix1.flags" :> "192") @@ ("prefix1.valid" :> "7200") @@ ("prefix1.preferred" :> "1800")
+             @@ ("rdnss.lifetime" :> IF rd THEN "1800" ELSE "absent")
         ideal == Fr("icmp6", "hostmac", i.mac, "hostlla", i.ip, Hop6(i.ip), -1, -1, "ra", f)
-        \* RouterAdvertisement.marshal has no ICMPv6 header: CurrentHopLimit (64) is read as the type
-        \* and the checksum is computed over the router lifetime that it then overwrites (layer_icmp.go:489-495)
-        real  == [Fr("icmp6", "hostmac", i.mac, "hostlla", i.ip, Hop6(i.ip), -1, -1, "icmp:64", [type |-> "64"]) EXCEPT !.sound = "icmp6.checksum"]
+        \* RouterAdvertisement.marshal yields the body only; the send function prepends the ICMPv6 header (fix 5720c60)
     IN IF np = 0 THEN [clean |-> TRUE, exp |-> Res(-1, "any", NoFrame, {}), mech |-> Res(0, "nil", NoFrame, {})]
        ELSE [clean |-> TRUE, exp |-> Res(1, "nil", Relax(ideal), {}),
-             mech |-> Res(1, "nil", real, {KF("kind", "KF_NDPNoICMPHeader"), KF("f.type", "KF_NDPNoICMPHeader"), KF("sound", "KF_NDPNoICMPHeader")})]
+             mech |-> Res(1, "nil", ideal, {})]
 
 ArpF(op, s, t) == [op |-> op, sha |-> s.mac, spa |-> s.ip, tha |-> t.mac, tpa |-> t.ip]
 Arp(ethDst, op, s, t, checked) ==
@@ -429,10 +434,8 @@ PurgeProbe(h) ==
     CASE h = "lan4" ->
            LET ideal == Fr("arp", "hostmac", "bcast", "none", "none", -1, -1, -1, "arpreq",
                            ArpF("1", A("hostmac", "hostip4"), A("bcast", "lan4")))
-               \* session.go:372-373 writes hlen/plen into b[4], b[5]: the Ethernet destination
-               real == [ideal EXCEPT !.ethDst = "ff:ff:ff:ff:06:04", !.sound = "arp.hlenplen"]
-           IN [clean |-> TRUE, exp |-> Res(1, "nil", Relax(ideal), {}),
-               mech |-> Res(1, "nil", real, {KF("ethDst", "KF_PurgeProbeHlenPlen"), KF("sound", "KF_PurgeProbeHlenPlen")})]
+               \* session.go:372-373 write hlen/plen into the ARP header (into the Ethernet destination until fix ee34ff3)
+           IN [clean |-> TRUE, exp |-> Res(1, "nil", Relax(ideal), {}), mech |-> Res(1, "nil", ideal, {})]
       [] h = "lla1" -> NDP6(HostLLAAddr, "lib:solnode", "ns", NSF("lla1"), NSMechF("lla1"))
       [] h = "gua1" -> Echo6(HostLLAAddr, "u:gua1", "any", "0", "nil")
 
@@ -463,10 +466,8 @@ ForgedDecline ==
 ForgedRelease ==
     LET f == DhcpF("1", "7", "mac1", "arg.leased", "zero4", "any") @@ [opt54 |-> "routerip4", opt61 |-> "arg.clientid"]
         ideal == Dhcp("routermac", "routerip4", 68, 67, f)
-        \* client.go:86 passes nil instead of the option map it has just built
-        real == [ideal EXCEPT !.f = [k \in DOMAIN f |-> IF k \in {"opt54", "opt61"} THEN "absent" ELSE f[k]]]
-    IN [clean |-> TRUE, exp |-> Res(1, "nil", Relax(ideal), {}),
-        mech |-> Res(1, "nil", real, {KF("f.opt54", "KF_ReleaseOptionsDropped"), KF("f.opt61", "KF_ReleaseOptionsDropped")})]
+        \* client.go:85 passes the option map it has built (nil until fix 29f303c)
+    IN [clean |-> TRUE, exp |-> Res(1, "nil", Relax(ideal), {}), mech |-> Res(1, "nil", ideal, {})]
 
 \* ------------------------------------------------------------------ dns_naming
 DnsF(id, qr, qd, qname) == [id |-> id, qr |-> qr, qd |-> qd, qname |-> qname]
@@ -475,39 +476,39 @@ UdpQ(ethSrc, a, src, port, kind, f) == Fr("udp4", ethSrc, a.mac, src, a.ip, 255,
 MDNSQuery ==
     LET f == DnsF("0", "0", "1", "arg.name")
     IN [clean |-> TRUE, exp |-> Res(1, "nil", Relax(UdpQ("hostmac", IntentMDNS4, "hostip4", 5353, "mdns", f)), {}),
-        mech |-> Res(1, "nil", UdpQ("hostmac", MechMDNS4, "hostip4", 5353, "mdns", f), {KF("ethDst", "KF_Mcast4ToBroadcastMAC")})]
+        mech |-> Res(1, "nil", UdpQ("hostmac", MechMDNS4, "hostip4", 5353, "mdns", f), {})]
 LLMNRQuery ==
     LET f == DnsF("0", "0", "1", "arg.name")
     IN [clean |-> TRUE, exp |-> Res(1, "nil", Relax(UdpQ("hostmac", IntentLLMNR4, "hostip4", 5355, "llmnr", f)), {}),
-        mech |-> Res(1, "nil", UdpQ("hostmac", MechLLMNR4, "hostip4", 5355, "llmnr", f),
-                     {KF("ipDst", "KF_LLMNRIsMDNSAddr"), KF("ethDst", "KF_Mcast4ToBroadcastMAC")})]
+        mech |-> Res(1, "nil", UdpQ("hostmac", MechLLMNR4, "hostip4", 5355, "llmnr", f), {})]
 SSDPSearch ==
     LET f == [startline |-> "M-SEARCH * HTTP/1.1"]
     IN [clean |-> TRUE, exp |-> Res(1, "nil", Relax(UdpQ("hostmac", IntentSSDP4, "hostip4", 1900, "ssdp", f)), {}),
-        mech |-> Res(1, "nil", UdpQ("hostmac", MechSSDP4, "hostip4", 1900, "ssdp", f), {KF("ethDst", "KF_Mcast4ToBroadcastMAC")})]
+        mech |-> Res(1, "nil", UdpQ("hostmac", MechSSDP4, "hostip4", 1900, "ssdp", f), {})]
 SleepProxy(src, dst) ==
     LET f == [id |-> "arg.id", qr |-> "1", qd |-> "0", an |-> "4"]
         fr == UdpQ("hostmac", dst, src.ip, 5353, "mdns", f)
         bad == ~Is4(src.ip) \/ ~Is4(dst.ip)
     IN [clean |-> ~bad, exp |-> IF bad THEN Res(-1, "any", NoFrame, {}) ELSE Res(1, "nil", Relax(fr), {}),
         mech |-> IF bad THEN Res(-1, "any", NoFrame, {}) ELSE Res(1, "nil", fr, {})]
-\* sendNBNS takes the Ethernet source from its argument (nbns.go:145)
+\* sendNBNS forces the Ethernet source to the NIC MAC (took it from its argument until fix 3ee2a1b)
 NBNS(src, dst, qtype) ==
     LET f == DnsF("any", "0", "1", "arg.nbname") @@ [qtype |-> qtype]
         ideal == Fr("udp4", "hostmac", dst.mac, src.ip, dst.ip, 255, 137, 137, "nbns", f)
-        real  == [ideal EXCEPT !.ethSrc = src.mac]
-    IN [clean |-> TRUE, exp |-> Res(1, "nil", Relax(ideal), {}),
-        mech |-> Res(1, "nil", real, IF src.mac = "hostmac" THEN {} ELSE {KF("ethSrc", "KF_NBNSEtherSrcFromArgument")})]
+    IN [clean |-> TRUE, exp |-> Res(1, "nil", Relax(ideal), {}), mech |-> Res(1, "nil", ideal, {})]
 
 \* ------------------------------------------------------------------ the calls
-Src4 == {HostAddr4, A("mac1", "lan4"), A("hostmac", "routerip4"), A("hostmac", "zero4"), A("hostmac", "lla1"), A("hostmac", "invalid")}
-Dst4 == {A("mac1", "lan4"), RouterAddr4, A("bcast", "bcast4"), A("mac1", "zero4"), A("mac1", "lla1"), A("mac1", "invalid")}
+Src4 == {HostAddr4, A("mac1", "lan4"), A("hostmac", "lan4"), A("hostmac", "routerip4"), A("hostmac", "zero4"), A("hostmac", "lla1"), A("hostmac", "invalid")}
+\* A("01:00:5e:00:00:01", "224.0.0.1") is packet.IP4AllNodesAddr
+Dst4 == {A("mac1", "lan4"), RouterAddr4, A("bcast", "bcast4"), A("01:00:5e:00:00:01", "224.0.0.1"), A("hostmac", "hostip4"),
+         A("mac1", "zero4"), A("mac1", "lla1"), A("mac1", "invalid")}
 Src6 == {HostLLAAddr, A("mac1", "lla1"), A("hostmac", "gua1"), A("hostmac", "lan4"), A("hostmac", "invalid")}
-Dst6 == {"u:lla1", "u:gua1", "lib:allnodes", "lib:allrouters", "lib:solnode", "u:lan4", "u:invalid"}
-Tgt6 == {A("hostmac", "lla1"), A("mac1", "gua1"), A("hostmac", "invalid")}
-ArpIPs == {"lan4", "routerip4", "zero4", "bcast4", "lla1", "invalid"}
-ArpSenders == {HostAddr4, A("mac1", "lan4"), A("hostmac", "zero4"), A("mac1", "routerip4")}
-ArpTargets == {A("bcast", "lan4"), A("zero", "lan4"), A("mac1", "routerip4"), A("mac1", "bcast4")}
+Dst6 == {"u:lla1", "u:gua1", "u:hostlla", "lib:allnodes", "lib:allrouters", "lib:solnode", "lib:solnode:gua", "u:lan4", "u:invalid"}
+Tgt6 == {A("hostmac", "lla1"), A("mac1", "lla1"), A("mac1", "gua1"), A("hostmac", "invalid")}
+ArpDstMACs == {"mac1", "bcast", "routermac"}
+ArpIPs == {"lan4", "routerip4", "hostip4", "zero4", "bcast4", "224.0.0.251", "lla1", "invalid"}
+ArpSenders == {HostAddr4, A("mac1", "lan4"), A("hostmac", "zero4"), A("mac1", "zero4"), A("hostmac", "routerip4"), A("mac1", "routerip4")}
+ArpTargets == {A("bcast", "lan4"), A("zero", "lan4"), A("mac1", "lan4"), A("mac1", "routerip4"), A("hostmac", "hostip4"), A("mac1", "bcast4")}
 
 Call(c) ==
     CASE c.f = "ICMP4SendEchoRequest" -> Echo4(c.src, c.dst, "arg.id", "arg.seq", "nil")
@@ -548,31 +549,31 @@ ICMP6SendEchoRequest(n) == \E s \in Src6, d \in Dst6 : Send([f |-> "ICMP6SendEch
 ICMP6SendNeighborAdvertisement(n) ==
     \E s \in Src6, d \in Dst6, t \in Tgt6 : Send([f |-> "ICMP6SendNeighborAdvertisement", src |-> s, dst |-> d, tgt |-> t], n)
 ICMP6SendNeighbourSolicitation(n) ==
-    \E s \in Src6, d \in Dst6, ip \in {"lla1", "gua1", "invalid"} :
+    \E s \in Src6, d \in Dst6, ip \in {"lla1", "gua1", "hostlla", "invalid"} :
         Send([f |-> "ICMP6SendNeighbourSolicitation", src |-> s, dst |-> d, ip |-> ip], n)
 ICMP6SendRouterSolicitation(n) == Send([f |-> "ICMP6SendRouterSolicitation"], n)
 ICMP6SendRouterAdvertisement(n) ==
-    \E np \in 0..2, rd \in BOOLEAN, d \in {"lib:allnodes", "u:lla1"} :
+    \E np \in 0..3, rd \in BOOLEAN, d \in {"lib:allnodes", "u:lla1", "u:gua1"} :
         Send([f |-> "ICMP6SendRouterAdvertisement", np |-> np, rdnss |-> rd, dst |-> d], n)
 Ping(n)  == \E d \in Dst4 : Send([f |-> "Ping", dst |-> d], n)
 Ping6(n) == \E s \in Src6, d \in Dst6 : Send([f |-> "Ping6", src |-> s, dst |-> d], n)
 Purge(n) == \E h \in {"lan4", "lla1", "gua1"} : Send([f |-> "PurgeProbe", host |-> h], n)
 ArpRequest(n)    == \E ip \in ArpIPs : Send([f |-> "arp.Request", ip |-> ip], n)
-ArpRequestTo(n)  == \E m \in {"mac1", "bcast"}, ip \in ArpIPs : Send([f |-> "arp.RequestTo", mac |-> m, ip |-> ip], n)
+ArpRequestTo(n)  == \E m \in ArpDstMACs, ip \in ArpIPs : Send([f |-> "arp.RequestTo", mac |-> m, ip |-> ip], n)
 ArpProbe(n)      == \E ip \in ArpIPs : Send([f |-> "arp.Probe", ip |-> ip], n)
-ArpAnnounceTo(n) == \E m \in {"mac1", "bcast"}, ip \in ArpIPs : Send([f |-> "arp.AnnounceTo", mac |-> m, ip |-> ip], n)
-ArpRequestRaw(n) == \E m \in {"mac1", "bcast"}, s \in ArpSenders, t \in ArpTargets :
+ArpAnnounceTo(n) == \E m \in ArpDstMACs, ip \in ArpIPs : Send([f |-> "arp.AnnounceTo", mac |-> m, ip |-> ip], n)
+ArpRequestRaw(n) == \E m \in ArpDstMACs, s \in ArpSenders, t \in ArpTargets :
                         Send([f |-> "arp.RequestRaw", mac |-> m, src |-> s, dst |-> t], n)
-ArpReply(n)      == \E m \in {"mac1", "bcast"}, s \in ArpSenders, t \in ArpTargets :
+ArpReply(n)      == \E m \in ArpDstMACs, s \in ArpSenders, t \in ArpTargets :
                         Send([f |-> "arp.Reply", mac |-> m, src |-> s, dst |-> t], n)
-DhcpSendDiscover(n) == \E ch \in {"mac1", "mac2"}, ci \in {"zero4", "lan4"}, nm \in BOOLEAN :
+DhcpSendDiscover(n) == \E ch \in {"mac1", "mac2", "hostmac"}, ci \in {"zero4", "lan4", "hostip4"}, nm \in BOOLEAN :
                         Send([f |-> "dhcp4.SendDiscoverPacket", ch |-> ch, ci |-> ci, named |-> nm], n)
 DhcpServerReply(n)  == \E mt \in {"2", "5", "6"}, b \in BOOLEAN : (b \/ mt = "5") /\ Send([f |-> "dhcp4.ServerReply", mt |-> mt, bcast |-> b], n)
 DhcpForged(n)       == \E k \in {"dhcp4.ForgedDecline", "dhcp4.ForgedRelease"} : Send([f |-> k], n)
 DnsQueries(n)       == \E k \in {"dns.SendMDNSQuery", "dns.SendLLMNRQuery", "dns.SendSSDPSearch", "dns.SendNBNSNodeStatus"} : Send([f |-> k], n)
-DnsSleepProxy(n)    == \E s \in {HostAddr4, A("mac1", "lan4"), HostLLAAddr}, d \in {A("mac1", "lan4"), A("bcast", "bcast4")} :
+DnsSleepProxy(n)    == \E s \in {HostAddr4, A("mac1", "lan4"), HostLLAAddr}, d \in {A("mac1", "lan4"), A("bcast", "bcast4"), A("01:00:5e:00:00:fb", "224.0.0.251")} :
                         Send([f |-> "dns.SendSleepProxyResponse", src |-> s, dst |-> d], n)
-DnsNBNSQuery(n)     == \E s \in {HostAddr4, A("mac1", "lan4")}, d \in {A("mac1", "lan4"), A("bcast", "bcast4")} :
+DnsNBNSQuery(n)     == \E s \in {HostAddr4, A("mac1", "lan4"), A("hostmac", "lan4")}, d \in {A("mac1", "lan4"), A("bcast", "bcast4"), RouterAddr4} :
                         Send([f |-> "dns.SendNBNSQuery", src |-> s, dst |-> d], n)
 
 SendNext == phase = "idle" /\ "send" \in Parts /\ \E n \in NICs :
